@@ -111,6 +111,8 @@ def run(ctx):
                         path = None
                     if path is not None:
                         ctx.failure('is_true/is_false verdict contradicted by a region', {'how': markers.describe(sess, r), 'path': [dump(list(p)) for p in path]})
+        # the operands are "markers parsed from text": what the text denotes is the extracted parser's diagram
+        markers.check_parses(ctx, sess, keys, 150 if quick else 400)
         c02.monitor(ctx, sess, regs)
         sess.close()
     if not ctx.samples:
